@@ -977,10 +977,20 @@ def rule_count(repo: Repo, rep: Report) -> int:
         fi = repo.method(ci, "forward")
         rs = [s for s in ast.walk(fi.node) if isinstance(s, ast.Assign) and isinstance(s.targets[0], ast.Name) and s.targets[0].id == "x_reshaped"]
         n += 1
+        m = None
         if len(rs) != 1:
-            rep.undecided("COUNT", fi, f"{cname}: x_reshaped", f"{len(rs)} definitions")
-            continue
-        m = match(rs[0].value, "x.reshape(*batch_shape, -1, _B)") or match(rs[0].value, "x.view(*batch_shape, -1, _B)") or match(rs[0].value, "x.reshape(*batch_shape, symbol_len, _B)")
+            # the grouping under another name: the one reshape / view of the input `x` into (*lead, symbols, group)
+            calls_ = [c_ for c_ in ast.walk(fi.node) if isinstance(c_, ast.Call) and isinstance(c_.func, ast.Attribute) and c_.func.attr in ("reshape", "view") and isinstance(c_.func.value, ast.Name) and c_.func.value.id == "x" and len(c_.args) == 3 and isinstance(c_.args[0], ast.Starred) and not c_.keywords]
+            lead_ = {s_.targets[0].id for s_ in ast.walk(fi.node) if isinstance(s_, ast.Assign) and isinstance(s_.targets[0], ast.Name) and unparse(s_.value) == "x.shape[:-1]"}
+            calls_ = [c_ for c_ in calls_ if (isinstance(c_.args[0].value, ast.Name) and c_.args[0].value.id in lead_) or unparse(c_.args[0].value) == "x.shape[:-1]"]
+            if len(calls_) != 1:
+                rep.undecided("COUNT", fi, f"{cname}: x_reshaped", f"{len(rs)} definitions")
+                continue
+            rs = [next(s_ for s_ in ast.walk(fi.node) if isinstance(s_, (ast.Assign, ast.Return, ast.Expr)) and any(x_ is calls_[0] for x_ in ast.walk(s_)))]
+            if unparse(calls_[0].args[1]) == "-1" or isinstance(calls_[0].args[1], ast.Name):
+                m = {"_B": calls_[0].args[2]}
+        else:
+            m = match(rs[0].value, "x.reshape(*batch_shape, -1, _B)") or match(rs[0].value, "x.view(*batch_shape, -1, _B)") or match(rs[0].value, "x.reshape(*batch_shape, symbol_len, _B)")
         if m is None:
             rep.undecided("COUNT", fi, rs[0], "grouping reshape not recognised", node=rs[0])
             continue
@@ -991,7 +1001,7 @@ def rule_count(repo: Repo, rep: Report) -> int:
             rep.violation("COUNT", fi, rs[0], f"bits are grouped {got} per symbol; this scheme carries {bps} bits per symbol", node=rs[0])
         # divisibility guard
         guards = [s for s in ast.walk(fi.node) if isinstance(s, ast.If) and any(isinstance(x, ast.Raise) for x in s.body) and "%" in unparse(s.test)]
-        okg = any(match(g.test, f"bit_len % {bps} != 0") is not None or f"bit_len % {bps} != 0" in unparse(g.test) for g in guards)
+        okg = any(match(g.test, f"bit_len % {bps} != 0") is not None or f"bit_len % {bps} != 0" in unparse(g.test) or f"x.shape[-1] % {bps} != 0" in unparse(g.test) or f"x.size(-1) % {bps} != 0" in unparse(g.test) for g in guards)
         rep.expect(okg, "COUNT", fi, f"{cname}: `bit_len % {bps} != 0` raises", "no silent truncation or padding of the bit sequence", "divisibility guard not recognised")
         n += 1
     # bits_per_symbol = log2(order)
